@@ -61,7 +61,8 @@ type Node struct {
 	c           *Cluster
 	dead        int32
 	Incarnation int
-	NoRejoin    bool // next starts use `-join false`
+	NoRejoin    bool   // next starts use `-join false`
+	JoinVia     string // next starts join through this address instead of node 1's
 
 	rpcMu     sync.Mutex
 	rpcFaults map[string]RPCFault // gRPC full method -> fault ("*" = every method)
@@ -338,6 +339,9 @@ func (n *Node) config() *anndb.Config {
 	cfg.Port = n.Port
 	if n.Idx > 0 && !n.c.Opt.Solo {
 		cfg.JoinNodes = []string{n.c.Nodes[0].Addr}
+	}
+	if n.JoinVia != "" {
+		cfg.JoinNodes = []string{n.JoinVia}
 	}
 	if n.NoRejoin {
 		// `-join false`: restart from the local state only, no join handshake
